@@ -277,7 +277,7 @@ class Execution:
         self.trace.append(c)
         self.nalts.append(len(alts))
         self.preempt.append(alts[0][0] is self.running and alts[0][1] == "ok" and not finishing)
-        self.labels.append((t.tid, dec, t.pending[0]))
+        self.labels.append((t.tid, dec, t.pending[0], t.name))
         if dec == "timeout":
             self.tbudget -= 1
         elif dec == "interrupt":
@@ -680,9 +680,63 @@ def explore(make, check, timeouts=0, interrupts=0, line_mode=False, preemption_b
     return st
 
 
+def minimize(make, check, trace, timeouts=0, interrupts=0, line_mode=False, cleanup=None, budget=150):
+    """Shrinks a violating schedule: shortest prefix after which the default continuation still
+    violates, then individual deviations dropped while the violation persists.  Returns
+    (schedule, message, labels) of the smallest one found."""
+
+    def attempt(prefix):
+        try:
+            ex, ctx = run_once(make, prefix, timeouts, interrupts, line_mode, None)
+        except HarnessError:
+            return None
+        try:
+            msg = check(ex, ctx)
+        finally:
+            if cleanup:
+                cleanup(ctx)
+        return (list(ex.trace), msg, list(ex.labels)) if msg else None
+
+    best = attempt(trace)
+    if best is None:
+        return None
+    runs = 1
+    # strip trailing default choices, then find the shortest violating prefix (linear from the front of the deviations)
+    dev = [i for i, c in enumerate(trace) if c]
+    for cut in [0] + [i + 1 for i in dev]:
+        if runs >= budget:
+            break
+        r = attempt(trace[:cut])
+        runs += 1
+        if r:
+            best = r
+            trace = trace[:cut]
+            break
+    changed = True
+    while changed and runs < budget:
+        changed = False
+        for i in [i for i, c in enumerate(trace) if c]:
+            cand = trace[:i] + [0] + trace[i + 1:]
+            r = attempt(cand)
+            runs += 1
+            if r:
+                # keep only the prefix that still matters
+                best = r
+                trace = cand
+                while trace and trace[-1] == 0:
+                    trace.pop()
+                changed = True
+                break
+            if runs >= budget:
+                break
+    keep = len(trace)
+    return best[0][:max(keep, 0)] if False else trace, best[1], best[2]
+
+
 def describe(labels, names=None):
     out = []
-    for tid, dec, kind in labels:
-        n = names[tid] if names and tid < len(names) else "T%d" % tid
-        out.append("%s:%s%s" % (n, kind, "" if dec == "ok" else "!" + dec))
+    for lab in labels:
+        tid, dec, kind = lab[:3]
+        n = lab[3] if len(lab) > 3 else (names[tid] if names and tid < len(names) else "T%d" % tid)
+        out.append("%s#%d:%s%s" % (n, tid, kind, "" if dec == "ok" else "!" + dec))
     return out
